@@ -3,7 +3,9 @@ package main
 import (
 	"go/token"
 	"go/types"
+	"regexp"
 	"sort"
+	"strings"
 
 	"golang.org/x/tools/go/ssa"
 )
@@ -73,7 +75,7 @@ func (c *Ctx) fld(role string) string {
 	var cands []*types.Var
 	for i := 0; i < st.NumFields(); i++ {
 		f := st.Field(i)
-		if f.Embedded() || types.TypeString(f.Type(), relQual) != spec.typeStr {
+		if f.Embedded() || !c.fieldTypeMatches(spec.pkg, f.Type(), spec.typeStr) {
 			continue
 		}
 		if spec.mark != nil && !spec.mark(c, tn, f) {
@@ -180,4 +182,28 @@ func markReadBuffer(c *Ctx, tn *types.TypeName, f *types.Var) bool {
 		})
 	}
 	return hit
+}
+
+// fieldTypeMatches: the declared type of a field is the one the role names — literally, after
+// mapping renamed types back, or as the underlying basic type of a new unexported named type
+// (`eexec int` that became `eexec eexecMode`).
+func (c *Ctx) fieldTypeMatches(pkg string, t types.Type, want string) bool {
+	have := types.TypeString(t, relQual)
+	if have == want {
+		return true
+	}
+	for k, nw := range c.renames().types {
+		if strings.HasPrefix(k, pkg+".") {
+			have = regexp.MustCompile(`\b`+regexp.QuoteMeta(nw)+`\b`).ReplaceAllString(have, strings.TrimPrefix(k, pkg+"."))
+		}
+	}
+	if have == want {
+		return true
+	}
+	if n, ok := t.(*types.Named); ok && !n.Obj().Exported() {
+		if b, ok := n.Underlying().(*types.Basic); ok && b.Name() == want {
+			return true
+		}
+	}
+	return false
 }
